@@ -16,6 +16,7 @@ EXTENDS Integers, Sequences, FiniteSets, TLC
 CONSTANTS Cursors,     \* e.g. {"c1", "c2"}
           Ids, Vals,   \* small integer ranges for generated rows
           Offsets,     \* numbers used with ABSOLUTE / RELATIVE
+          InitTables,  \* initial contents of t
           MaxRows
 
 VARIABLES tbl,    \* Seq([id, v])  the table as the transaction sees it
@@ -37,7 +38,7 @@ Val(s) == [k |-> "val", e |-> "", vals |-> s]
 Tern(b) == IF b THEN "TRUE" ELSE "FALSE"
 
 Init ==
-  /\ tbl \in {<<>>, <<[id |-> 1, v |-> 1]>>, <<[id |-> 1, v |-> 1], [id |-> 2, v |-> 2], [id |-> 3, v |-> 3]>>}
+  /\ tbl \in InitTables
   /\ base = tbl
   /\ cur = [c \in Cursors |-> NoCursor]
   /\ out = Ok
@@ -115,7 +116,7 @@ Insert(id, v) ==
   /\ out' = Ok /\ UNCHANGED <<base, cur>>
 
 Update(id) ==
-  /\ tbl' = [i \in 1..Len(tbl) |-> IF tbl[i].id = id THEN [tbl[i] EXCEPT !.v = @ + 1] ELSE tbl[i]]
+  /\ tbl' = [i \in 1..Len(tbl) |-> IF tbl[i].id = id THEN [tbl[i] EXCEPT !.v = (@ % 3) + 1] ELSE tbl[i]]
   /\ out' = Ok /\ UNCHANGED <<base, cur>>
 
 Delete(id) ==
